@@ -52,6 +52,24 @@ fn main() {
                     std::process::exit(2);
                 }
             };
+            if file.class == "no-return" {
+                // the run is executed in a process of its own against a real-time limit
+                let exe = std::env::current_exe().expect("current exe");
+                let hung = parent::file_times_out(
+                    &exe,
+                    &args[2],
+                    std::time::Duration::from_secs(60),
+                );
+                if hung {
+                    println!(
+                        "REPRODUCED property={} class=no-return hash_match=true message=the run did not finish within 60 s",
+                        file.property
+                    );
+                    std::process::exit(1);
+                }
+                println!("NOT-REPRODUCED property={} class={}", file.property, file.class);
+                std::process::exit(0);
+            }
             if file.class == "process-abort" || file.class == "build-divergence" {
                 std::process::exit(replay_two_builds(&args[2], &file));
             }
